@@ -5,7 +5,8 @@
    GTC/lib.py on every run.  Also: the case checker used by the generated correspondence
    files.  Definitions only. *)
 From Coq Require Import ZArith List Bool.
-From GTCV Require Import Num Vector Opres KTypes Kernel LU.
+From Coq Require Import PrimFloat FloatOps SpecFloat.
+From GTCV Require Import Num FNum Vector Opres KTypes Kernel LU.
 Import ListNotations.
 
 Section Inst.
@@ -127,6 +128,8 @@ Section Inst.
   | CScale (lft : bool) (sc : elt) (fa : list elt)
   | CMatmulMixed (ra rb : nat)
   | CDtypeMismatch
+  | CListArg
+  | CBoolDtype
   | CTransposeN (shape axes : list nat) (fa : list elt).
 
   (* result rows and the contents of the argument arrays after the call *)
@@ -168,6 +171,10 @@ Section Inst.
         r <- nd_matmul FElt SA SB n La p (of_list FElt fa) (of_list FElt fb) ;; Ok ([r], [fa], [fb])
     | CTransposeN shape axes fa =>
         Ok ([nd_transpose shape axes (of_list FElt fa)], [fa], [])
+    (* known finding C15-4 (arguments that are not object-dtype uarrays): a nested list has no .dtype / .shape;
+       UncertainArray.copy() applies unary + to numpy booleans (UFuncTypeError, not in the exn enumeration) *)
+    | CListArg => Err AttributeError
+    | CBoolDtype => Err OtherExn
     | CDtypeMismatch => Err AssertionError      (* LU.solve / LU.invab: assert a.dtype == b.dtype *)
     | CMatmulMixed ra rb =>
         (* known finding C15-3: la.matmul pairs the stacks of operands of the SAME rank only; with
@@ -183,8 +190,8 @@ Section Inst.
 
   (* -1: agreement; 1: result differs; 2: argument a differs; 3: argument b differs;
      4: one raised and the other did not / different exceptions *)
-  Definition check_call (c : call) (expected : outcome) : Z :=
-    match run_call c, expected with
+  Definition check_outcome (got expected : outcome) : Z :=
+    match got, expected with
     | Ok (r, a, b), Ok (r', a', b') =>
         if negb (rows_same r r') then 1%Z
         else if negb (rows_same a a') then 2%Z
@@ -192,6 +199,28 @@ Section Inst.
     | Err e, Err e' => if exn_eqb e e' then (-1)%Z else 4%Z
     | _, _ => 4%Z
     end.
+
+  Definition check_call (c : call) (expected : outcome) : Z := check_outcome (run_call c) expected.
 End Inst.
 
 Arguments EU {N} o. Arguments EN {N} v. Arguments EI {N} z.
+
+(* ---------- known finding C15-4, integer-dtype uarrays: LU.invab allocates its result with a.dtype, so every
+   element of la.inv / LU.invab is stored through numpy's float -> integer cast (truncation toward zero) ---------- *)
+Definition f_trunc (x : float) : Z :=
+  match Prim2SF x with
+  | S754_finite s m e =>
+      let v := if (0 <=? e)%Z then Z.shiftl (Zpos m) e else Z.shiftr (Zpos m) (- e) in
+      if s then (- v)%Z else v
+  | _ => 0%Z
+  end.
+
+Definition trunc_elt (tbl : list oracle_entry) (e : elt (FNum tbl)) : elt (FNum tbl) :=
+  match e with EN v => EI (f_trunc v) | _ => e end.
+
+Definition check_call_int_result (tbl : list oracle_entry) (c : call (FNum tbl)) (expected : outcome (FNum tbl)) : Z :=
+  check_outcome (FNum tbl)
+    (match run_call (FNum tbl) c with
+     | Ok (r, a, b) => Ok (map (map (trunc_elt tbl)) r, a, b)
+     | Err e => Err e
+     end) expected.
